@@ -85,6 +85,9 @@ def make_msg(kind: str, i: int) -> t.Any:
     raise KeyError(kind)
 
 
+CLIENT_CALLS_EXTRA: t.Dict[str, t.Callable[[t.Any], t.Any]] = {
+    "ext1k": lambda c: c.extended_request("1.2", b"k" * 1000),  # used by the long runs only
+}
 CLIENT_CALLS: t.Dict[str, t.Callable[[t.Any], t.Any]] = {
     "bind_simple": lambda c: c.bind_simple(),
     "bind_sasl": lambda c: c.bind_sasl("M", cred=b"c"),
@@ -101,6 +104,9 @@ SERVER_CALLS: t.Dict[str, t.Callable[[t.Any, int], t.Any]] = {
     "entry": lambda s, i: s.search_result_entry(i, "", []),
     "ref": lambda s, i: s.search_result_reference(i, ["u"]),
     "done": lambda s, i: s.search_result_done(i),
+}
+SERVER_CALLS_EXTRA: t.Dict[str, t.Callable[[t.Any, int], t.Any]] = {
+    "entry1k": lambda s, i: s.search_result_entry(i, "cn=e", [L.PartialAttribute("a", [b"k" * 1000])]),
 }
 GARBAGE = b"\x04\x00"
 
@@ -226,8 +232,8 @@ def apply_event(role: str, s: t.Any, ev: Event) -> t.Any:
         if name == "unbind":
             return s.unbind()
         if role == "client":
-            return CLIENT_CALLS[name](s)
-        return SERVER_CALLS[name](s, i)
+            return (CLIENT_CALLS.get(name) or CLIENT_CALLS_EXTRA[name])(s)
+        return (SERVER_CALLS.get(name) or SERVER_CALLS_EXTRA[name])(s, i)
     if kind == "callbad":
         return CLIENT_BAD[name](s) if role == "client" else SERVER_BAD[name](s, i)
     if kind == "recv":
@@ -279,8 +285,9 @@ def g0(role: str) -> "Ghost":
     return (ID_BASE > 0 and role == "client", (), ID_BASE if role == "client" else 0, 0)
 
 
-def step(role: str, s: t.Any, g: Ghost, ev: Event, kmax: int) -> t.Tuple[t.Any, Ghost, Rec, t.List[t.Tuple[str, str, str]]]:
-    """Apply ev to a copy of s.  -> (successor, ghost', record, [(property, key, what)])."""
+def step(role: str, s: t.Any, g: Ghost, ev: Event, kmax: int, drain: bool = True) -> t.Tuple[t.Any, Ghost, Rec, t.List[t.Tuple[str, str, str]]]:
+    """Apply ev to a copy of s.  -> (successor, ghost', record, [(property, key, what)]).
+    drain=False leaves the outgoing buffer alone (a backlog builds up); byte-level monitors are then skipped."""
     s2 = copy.deepcopy(s)
     pre = s.state
     exc: t.Optional[BaseException] = None
@@ -289,7 +296,7 @@ def step(role: str, s: t.Any, g: Ghost, ev: Event, kmax: int) -> t.Tuple[t.Any, 
         ret = apply_event(role, s2, ev)
     except BaseException as e:  # noqa: BLE001 - the class is what is being checked
         exc = e
-    out = s2.data_to_send()
+    out = s2.data_to_send() if drain else b""
     post = s2.state
     rec = Rec(pre, post, exc, ret, out)
     viol: t.List[t.Tuple[str, str, str]] = []
@@ -454,12 +461,12 @@ def monitors(role: str, g: Ghost, ev: Event, rec: Rec, viol: t.List[t.Tuple[str,
             issued2 = issued + 1
             if not (type(ret) is int and ret > 0 and ret > issued):
                 flag("C09", f"id-not-increasing:{name}", f"{name} returned id {ret!r} after {issued}")
-            wire = _first_id(out)
+            wire = _first_id(out) if out else ret
             if wire != ret:
                 flag("C09", f"id-on-wire-differs:{name}", f"{name} returned id {ret!r} but the emitted bytes carry id {wire!r}")
             if type(ret) is int:
                 issued2 = max(issued2, ret)
-                inprog[ret] = "search" if name == "search" else "bind" if name.startswith("bind_") else "ext"
+                inprog[ret] = "search" if name == "search" else "bind" if name.startswith("bind_") else "ext"  # ext, ext1k
         if msgs:
             exp, g_after, why = _client_expect(inprog, msgs)
             label = "+".join(n for n, _ in msgs)
@@ -469,6 +476,8 @@ def monitors(role: str, g: Ghost, ev: Event, rec: Rec, viol: t.List[t.Tuple[str,
                     f"response-{'rejected' if exp else 'accepted'}:{kind}:{label}:{'in-progress' if exp else 'not-in-progress'}",
                     f"{kind} {label} (ids {[j for _, j in msgs]}) was {'accepted' if accepted else 'rejected: ' + str(exc)}; documented: {why}; ghost in-progress = {dict(inprog)}",
                 )
+            if exp is True and not accepted:
+                flag("C08", f"i-delivery-refused:client:{label}:{pre.name}", f"client in {pre.name} rejected {label} (ids {[j for _, j in msgs]}) for operations in progress {sorted(inprog.items())}: {exc}")
             if exp is False and not accepted and (not isinstance(exc, L.ProtocolError) or post != S.CLOSED):
                 flag("C09", f"reject-not-fatal:{label}", f"rejected delivery raised {type(exc).__name__}, state {post.name}")
             if accepted:
@@ -511,7 +520,7 @@ def monitors(role: str, g: Ghost, ev: Event, rec: Rec, viol: t.List[t.Tuple[str,
                 wire = _first_id(out)
                 if wire != i:
                     flag("C10", f"response-id-on-wire-differs:{name}", f"{name}({i}) emitted id {wire!r}")
-            if accepted and name not in ("entry", "ref"):
+            if accepted and name not in ("entry", "ref", "entry1k"):
                 inprog.pop(i, None)
     # (d) client side: a bind cannot start while other operations are outstanding
     if role == "client" and is_bindreq and definite:
@@ -698,6 +707,12 @@ def client_long_histories(marathon: bool = False) -> t.Iterator[t.Tuple[str, t.L
         h0 += [("call", "ext", -1), ("recv", "ExtResp", nid)]
         nid += 1
     yield "client-sasl-rounds", h0
+    # a backlog of > 64 KiB of accepted, undrained requests, then the whole lifecycle on top of it
+    hb: t.List[Event] = [("call", "ext1k", -1) for _ in range(75)]
+    hb += [("call", "bind_simple", -1)]  # refused: operations outstanding
+    hb += [("recv", "ExtResp", k + 1) for k in range(75)]
+    hb += [("call", "bind_simple", -1), ("recv", "BindResp-ok", 76), ("call", "search", -1), ("recv", "Done", 77), ("call", "unbind", -1), ("call", "ext", -1)]
+    yield "client-backlog-nodrain", hb
     if marathon:
         # one search stays open while 33 000 further operations are issued and completed (id roll-over points)
         h1: t.List[Event] = [("call", "search", -1)]
@@ -745,6 +760,10 @@ def server_long_histories() -> t.Iterator[t.Tuple[str, t.List[Event]]]:
         "many": list(range(1, 160)),
         "boundaries": [127, 128, 129, 255, 256, 32767, 32768, 65535, 65536, 2**31 - 2, 2**31 - 1, 2**31, 2**32, 2**63, 2**64 + 1],
     }
+    hb: t.List[Event] = [("recv", "SearchReq", 1), ("recv", "ExtReq", 2)]
+    hb += [("call", "entry1k", 1) for _ in range(75)]
+    hb += [("call", "done", 1), ("call", "entry", 1), ("call", "ext_response", 2), ("recv", "BindReq", 3), ("call", "entry", 3), ("call", "bind_response-ok", 3), ("recv", "SearchReq", 4), ("call", "notice", 4), ("call", "ext_response", 4)]
+    yield "server-backlog-nodrain", hb
     for name, ids in idsets.items():
         for order_name, order in (("fifo", _fifo), ("lifo", _lifo), ("oddeven", _oddeven)):
             h: t.List[Event] = []
@@ -780,7 +799,7 @@ def long_runs(role: str, known: t.Set[t.Tuple[str, str]], prop: str, marathon: b
         done: t.List[Event] = []
         for ev in hist:
             steps += 1
-            s2, g2, rec, viol = step(role, s, g, ev, 10**9)
+            s2, g2, rec, viol = step(role, s, g, ev, 10**9, drain="nodrain" not in name)
             done.append(ev)
             for p, k, w in viol:
                 if p == prop and (p, k) not in known:
